@@ -1,6 +1,6 @@
 SPECIFICATION Spec
 CONSTANTS
-  MaxOps = 14
+  MaxOps = 9
   UnitKinds = {"set32", "set64", "getp", "getq", "tcopy", "mcopy", "tinit", "minit"}
   MaxPos = 3
   Sigs = {1, 2}
